@@ -16,6 +16,9 @@ Proof. induction m as [|m IH]; intros [|i] H; cbn; auto; try lia. apply IH. lia.
 Lemma zsum_nil lo f : zsum lo lo f = 0.
 Proof. apply zsum_empty. lia. Qed.
 
+Lemma nth_skipn3 {A} (l : list A) d : forall j k, nth k (skipn j l) d = nth (j + k) l d.
+Proof. induction l as [|x l IH]; intros [|j] k; cbn [skipn nth Nat.add]; auto; destruct k; auto. Qed.
+
 Section Loop.
 Variable pts : list P3.
 Variables c0 b0 a0 ninf : Z.
@@ -62,7 +65,7 @@ Qed.
 Lemma skipn_above j a : (j <= n)%nat -> In a (skipn j pts) -> (j < n)%nat /\ f3 (nth j pts d0) <= f3 a.
 Proof.
   intros Hj Ha. destruct (In_nth _ _ d0 Ha) as [k [Hk Ek]]. rewrite skipn_length in Hk.
-  rewrite nth_skipn in Ek. subst a. split; [lia|]. apply Hsorted. lia.
+  rewrite nth_skipn3 in Ek. subst a. split; [lia|]. apply Hsorted. lia.
 Qed.
 
 (* advancing the height without adding points *)
@@ -75,13 +78,15 @@ Proof.
   rewrite (zsum_split a0 (zlev j) z') by lia. f_equal.
   rewrite (zsum_ext (zlev j) z' _ (fun _ => if (k <? j)%nat then area2 (firstn j pts) k else 0)).
   - rewrite zsum_const by lia. lia.
-  - intros c Hc. rewrite <- (firstn_skipn j pts) at 1.
+  - intros c Hc.
     assert (HA : forall a, In a (firstn j pts) -> f3 a <= c) by (intros a Ha; pose proof (firstn_below j a Hj Ha); lia).
     assert (HR : forall a, In a (skipn j pts) -> c < f3 a) by (intros a Ha; specialize (Hab a Ha); lia).
     destruct (Nat.ltb_spec k j).
     + unfold C13Contrib3dSpecProofs.area2. apply sum2_ext. intros v w _ _. f_equal.
+      replace (exclP3 pts k v w c) with (exclP3 (firstn j pts ++ skipn j pts) k v w c) by (now rewrite firstn_skipn).
       apply exclP3_level; auto. rewrite firstn_length. lia.
     + rewrite <- (sum2_zero c0 b0). apply sum2_ext. intros v w _ _.
+      replace (exclP3 pts k v w c) with (exclP3 (firstn j pts ++ skipn j pts) k v w c) by (now rewrite firstn_skipn).
       rewrite exclP3_later; auto. rewrite firstn_length, skipn_length. lia.
 Qed.
 
@@ -93,7 +98,7 @@ Proof.
   unfold C13Contrib3dSpecProofs.area2. rewrite <- (sum2_zero c0 b0). apply sum2_ext. intros v w Hv Hw.
   destruct (G5 k Hk) as [Hf|[e [He [Hne [H1 H2]]]]].
   - exfalso. assert (inF (F ++ Z0) k = true) by (apply inF_true; exists (ip pts k); split; auto). congruence.
-  - destruct (front_elem pts c0 b0 ninf Hbox j st F Z0 e HG Hj ltac:(apply in_or_app; auto)) as (Xi & X1 & X2 & _).
+  - destruct (front_elem pts c0 b0 a0 ninf Hbox j st F Z0 e HG Hj (in_or_app _ _ _ (or_introl He))) as (Xi & X1 & X2 & _).
     destruct (exclP2 (firstn j pts) k v w) eqn:Ex; auto. exfalso.
     pose proof Ex as Ex'. unfold exclP2 in Ex'. apply andb_true_iff in Ex'. destruct Ex' as [Ck _].
     rewrite nth_firstn_lt3 in Ck by lia. apply cov2b_true in Ck. cbn [C13Contrib3dStepProofs.ip f1 f2] in H1, H2.
@@ -192,7 +197,7 @@ Proof.
                 (map idx (sentL pts ninf :: F ++ sentR pts ninf :: Z0)) (contr st)).
   { generalize (contr st). generalize (sentL pts ninf :: F ++ sentR pts ninf :: Z0).
     induction l as [|e l IHl]; intros c; cbn [map fold_left]; auto. }
-  rewrite E. destruct (final_fold (fun d => close_all (nth d (boxes st) []) 0) _ (contr st) k) as [E1 _].
+  rewrite E. destruct (final_fold (fun d => close_all (nth d (boxes st) []) 0) (map idx (sentL pts ninf :: F ++ sentR pts ninf :: Z0)) (contr st) k) as [E1 _].
   { intros d Hd. apply in_map_iff in Hd. destruct Hd as [e [<- He]]. rewrite CL. destruct He as [<-|He]; [cbn; lia|].
     apply in_app_or in He. destruct He as [He|[<-|He]]; [|cbn; lia|];
       destruct (G1 e ltac:(apply in_or_app; auto)); lia. }
@@ -210,11 +215,11 @@ Proof.
     apply Hn'. apply in_map_iff. exists e. auto.
 Qed.
 
-Theorem all_contributions3d_values k : (k < n)%nat ->
-  nth k (map fst (all_contributions3d ninf pts)) 0 = EV k 0 /\
+Theorem all_contributions3d_values :
+  (forall k, (k < n)%nat -> nth k (map fst (all_contributions3d ninf pts)) 0 = EV k 0) /\
   length (all_contributions3d ninf pts) = n /\ map snd (all_contributions3d ninf pts) = map idx pts.
 Proof.
-  intros Hk. unfold all_contributions3d. cbv zeta.
+  unfold all_contributions3d. cbv zeta.
   set (s0 := mkSt _ _ _). set (s := fold_left (step3 pts) (combine (seq 0 n) pts) s0).
   assert (HI : Inv n s).
   { unfold s. rewrite <- (skipn_O pts) at 2. apply (Inv_loop n 0%nat s0); try lia. apply Inv_init. }
@@ -230,12 +235,176 @@ Proof.
       destruct (G1 e ltac:(apply in_or_app; auto)); lia. }
   assert (HL1 : length (firstn n (final_close s)) = n) by (rewrite firstn_length; lia).
   split; [|split].
-  - rewrite map_fst_combine by (rewrite HL1, map_length; auto). rewrite nth_firstn_lt3 by auto.
+  - intros k Hk. rewrite map_fst_combine by (rewrite HL1, map_length; auto). rewrite nth_firstn_lt3 by auto.
     rewrite (final_close_nth s F Z0 k HG Hk).
     pose proof (advance n s F Z0 0 HG HV ltac:(lia) (proj2 (zlev_bounds n ltac:(lia)))) as HV0.
     apply HV0; auto. intros a Ha. rewrite skipn_all in Ha. destruct Ha.
-  - rewrite combine_length, HL1, map_length. lia.
+  - etransitivity; [apply combine_length|]. rewrite HL1, map_length. lia.
   - rewrite map_snd_combine; auto. now rewrite HL1, map_length.
 Qed.
 
 End Loop.
+
+(* ---------------------------------------------------------------------------------------- *)
+(* the entry points *)
+Lemma insert_f3_perm p l : Permutation (insert_f3 p l) (p :: l).
+Proof.
+  induction l as [|q t IH]; cbn [insert_f3]; auto.
+  destruct (f3 p <? f3 q); auto. rewrite IH. apply perm_swap.
+Qed.
+
+Lemma sort_f3_perm l : Permutation (sort_f3 l) l.
+Proof.
+  induction l as [|p l IH]; cbn [sort_f3 fold_right]; auto.
+  fold (sort_f3 l). rewrite insert_f3_perm. now constructor.
+Qed.
+
+Definition f3le (a b : P3) : Prop := f3 a <= f3 b.
+
+Lemma insert_f3_sorted p l : StronglySorted f3le l -> StronglySorted f3le (insert_f3 p l).
+Proof.
+  induction 1 as [|q t HS IH HF]; cbn [insert_f3]; [repeat constructor|].
+  rewrite Forall_forall in HF. destruct (Z.ltb_spec (f3 p) (f3 q)).
+  - constructor; [constructor; auto; now apply Forall_forall|].
+    apply Forall_forall. intros x [<-|Hx]; unfold f3le in *; [lia|]. specialize (HF x Hx). lia.
+  - constructor; auto. apply Forall_forall. intros x Hx.
+    eapply Permutation_in in Hx; [|apply insert_f3_perm]. destruct Hx as [<-|Hx]; [unfold f3le; lia|auto].
+Qed.
+
+Lemma sort_f3_sorted l : StronglySorted f3le (sort_f3 l).
+Proof.
+  induction l as [|p l IH]; cbn [sort_f3 fold_right]; [constructor|].
+  fold (sort_f3 l). now apply insert_f3_sorted.
+Qed.
+
+Lemma ninf_of_below pts a : In a pts -> ninf_of pts < f1 a /\ ninf_of pts < f2 a.
+Proof.
+  unfold ninf_of. induction pts as [|p t IH]; intros Hin; [destruct Hin|]. cbn [fold_right].
+  destruct Hin as [<-|Hin]; [lia|]. specialize (IH Hin). lia.
+Qed.
+
+Lemma translate3_elem ref S a : In a (translate3 ref S) ->
+  exists q, In q S /\ crd3 a = trc ref q /\ (idx a < length S)%nat /\ a = nth (idx a) (translate3 ref S) d0.
+Proof.
+  intros Ha. destruct (In_nth _ _ d0 Ha) as [m [Hm Em]]. rewrite translate3_length in Hm.
+  assert (Ei : idx a = m).
+  { rewrite <- Em. rewrite <- (nth_map_d idx (translate3 ref S) d0 0%nat) by (rewrite translate3_length; auto).
+    rewrite translate3_idx. now rewrite seq_nth. }
+  exists (nth m S []). split; [apply nth_In; auto|]. split.
+  - rewrite <- Em. rewrite <- (nth_map_d crd3 (translate3 ref S) d0 (0, 0, 0)) by (rewrite translate3_length; auto).
+    rewrite translate3_crd. apply nth_map_d. auto.
+  - rewrite Ei. split; auto.
+Qed.
+
+Theorem contribs3d_entries r0 r1 r2 S :
+  below_ref [r0; r1; r2] S -> mutually_nondominated S ->
+  contribs3d [r0; r1; r2] S =
+  map (fun a => (contrib_spec [r0; r1; r2] S (idx a), idx a)) (sort_f3 (translate3 [r0; r1; r2] S)).
+Proof.
+  intros HB HN. unfold contribs3d. cbv zeta.
+  set (X := translate3 [r0; r1; r2] S). set (pts := sort_f3 X).
+  pose proof (sort_f3_perm X) as HP. fold pts in HP.
+  set (lo := Z.min (min_coord [r0; r1; r2] S) (Z.min r0 (Z.min r1 r2))).
+  assert (LB : lower_bound lo S).
+  { apply (lower_bound_weaken (min_coord [r0; r1; r2] S)); [apply min_coord_lower_bound|unfold lo; lia]. }
+  set (c0 := lo - r0). set (b0 := lo - r1). set (a0 := lo - r2).
+  assert (Hlen3 : forall q, In q S -> length q = 3%nat) by (intros q Hq; apply (leq_all_length q [r0; r1; r2]); auto).
+  assert (Elem : forall a, In a pts -> exists q, In q S /\ crd3 a = trc [r0; r1; r2] q /\ (idx a < length S)%nat /\ a = nth (idx a) X d0).
+  { intros a Ha. apply (translate3_elem [r0; r1; r2] S a). eapply Permutation_in; [exact HP|exact Ha]. }
+  assert (Coord : forall q, In q S -> exists x y z, q = [x; y; z] /\ lo <= x <= r0 /\ lo <= y <= r1 /\ lo <= z <= r2).
+  { intros q Hq. pose proof (Hlen3 q Hq). destruct q as [|x [|y [|z [|? ?]]]]; try discriminate.
+    exists x, y, z. split; auto. pose proof (HB _ Hq) as Hle. unfold leq_all in Hle.
+    inversion Hle as [|? ? ? ? L1 Hle1]; subst. inversion Hle1 as [|? ? ? ? L2 Hle2]; subst. inversion Hle2 as [|? ? ? ? L3 _]; subst.
+    pose proof (LB _ Hq x ltac:(cbn; auto)). pose proof (LB _ Hq y ltac:(cbn; auto)). pose proof (LB _ Hq z ltac:(cbn; auto)). lia. }
+  assert (Hbox : forall a, In a pts -> (c0 <= f1 a <= 0) /\ (b0 <= f2 a <= 0) /\ (a0 <= f3 a <= 0)).
+  { intros a Ha. destruct (Elem a Ha) as [q [Hq [Ec _]]]. destruct (Coord q Hq) as (x & y & z & -> & C1 & C2 & C3).
+    unfold crd3, trc in Ec. cbn [nth] in Ec. inversion Ec. unfold c0, b0, a0. lia. }
+  assert (Hsorted : forall i j, (i <= j < length pts)%nat -> f3 (nth i pts d0) <= f3 (nth j pts d0)).
+  { intros i j Hij. destruct (Nat.eq_dec i j) as [->|Hne]; [lia|].
+    apply (SS_nth f3le pts d0 (sort_f3_sorted X) i j). lia. }
+  assert (HND : forall i j, (i < length pts)%nat -> (j < length pts)%nat ->
+    f1 (nth i pts d0) <= f1 (nth j pts d0) -> f2 (nth i pts d0) <= f2 (nth j pts d0) ->
+    f3 (nth i pts d0) <= f3 (nth j pts d0) ->
+    f1 (nth i pts d0) = f1 (nth j pts d0) /\ f2 (nth i pts d0) = f2 (nth j pts d0)).
+  { intros i j Hi Hj H1 H2 H3.
+    destruct (Elem _ (nth_In pts d0 Hi)) as [q [Hq [Ec _]]]. destruct (Elem _ (nth_In pts d0 Hj)) as [q' [Hq' [Ec' _]]].
+    destruct (Coord q Hq) as (x & y & z & -> & _). destruct (Coord q' Hq') as (x' & y' & z' & -> & _).
+    unfold crd3, trc in Ec, Ec'. cbn [nth] in Ec, Ec'. inversion Ec. inversion Ec'.
+    destruct (Z.eq_dec x x') as [Ex|Nx]; [destruct (Z.eq_dec y y') as [Ey|Ny]; [lia|]|]; exfalso;
+      apply (HN _ _ Hq Hq'); apply dominates_componentwise; (split; [reflexivity|]); split.
+    - intros [|[|[|m]]] Hm; cbn [nth length] in *; lia.
+    - exists 1%nat. cbn [nth length]. split; [lia|]. lia.
+    - intros [|[|[|m]]] Hm; cbn [nth length] in *; lia.
+    - exists 0%nat. cbn [nth length]. split; [lia|]. lia. }
+  assert (Hninf : forall a, In a pts -> ninf_of pts < f1 a /\ ninf_of pts < f2 a) by (intros a Ha; apply ninf_of_below; auto).
+  assert (Ha0 : a0 <= 0) by (unfold a0, lo; lia).
+  assert (HlenP : length pts = length S).
+  { rewrite (Permutation_length HP). unfold X. apply translate3_length. }
+  destruct (all_contributions3d_values pts c0 b0 a0 (ninf_of pts) Hsorted Hbox Hninf Ha0 HND) as (HV & V2 & V3).
+  set (L := all_contributions3d (ninf_of pts) pts) in *.
+  apply (nth_ext _ _ (0, 0%nat) (0, 0%nat)).
+  { rewrite map_length. exact V2. }
+  intros k Hk.
+  assert (Hkn : (k < length pts)%nat) by (rewrite <- V2; exact Hk).
+  pose proof (HV k Hkn) as V1.
+  rewrite (nth_map_d _ pts d0 (0, 0%nat)) by auto.
+  assert (Epair : nth k L (0, 0%nat) = (nth k (map fst L) 0, nth k (map snd L) 0%nat)).
+  { rewrite (nth_map_d fst L (0, 0%nat) 0) by lia. rewrite (nth_map_d snd L (0, 0%nat) 0%nat) by lia.
+    apply surjective_pairing. }
+  etransitivity; [exact Epair|]. rewrite V1, V3. rewrite (nth_map_d idx pts d0 0%nat) by auto. f_equal.
+  destruct (Elem _ (nth_In pts d0 Hkn)) as [q [Hq [Ec [Hi Ea]]]].
+  rewrite (contrib_spec_cells r0 r1 r2 S _ lo HB LB Hi). fold X c0 b0 a0.
+  symmetry. apply EV_perm; auto.
+  - symmetry. exact HP.
+  - unfold X. rewrite translate3_length. exact Hi.
+Qed.
+
+Theorem contribs3d_correct ref S : length ref = 3%nat -> below_ref ref S -> mutually_nondominated S ->
+  Permutation (contribs3d ref S) (combine (contribs_spec ref S) (seq 0 (length S))).
+Proof.
+  intros Hl HB HN. destruct ref as [|r0 [|r1 [|r2 [|? ?]]]]; try discriminate.
+  rewrite (contribs3d_entries r0 r1 r2 S HB HN).
+  unfold contribs_spec. rewrite combine_map_self.
+  rewrite <- (translate3_idx [r0; r1; r2] S), map_map.
+  apply Permutation_map. apply sort_f3_perm.
+Qed.
+
+Lemma contribs3d_value ref S v i : length ref = 3%nat -> below_ref ref S -> mutually_nondominated S ->
+  In (v, i) (contribs3d ref S) -> (i < length S)%nat /\ v = contrib_spec ref S i.
+Proof.
+  intros Hl HB HN Hin. apply (Permutation_in _ (contribs3d_correct ref S Hl HB HN)) in Hin.
+  unfold contribs_spec in Hin. rewrite combine_map_self in Hin. apply in_map_iff in Hin.
+  destruct Hin as [k [E Hk]]. inversion E; subst. apply in_seq in Hk. split; [lia|reflexivity].
+Qed.
+
+Theorem contrib3d_smallest_correct ref S k :
+  length ref = 3%nat -> below_ref ref S -> mutually_nondominated S -> (k <= length S)%nat ->
+  let res := contrib3d_smallest ref S k in
+  map fst res = smallest_k k (contribs_spec ref S) /\ length res = k /\ NoDup (map snd res) /\
+  forall v i, In (v, i) res -> (i < length S)%nat /\ v = contrib_spec ref S i.
+Proof.
+  intros Hl HB HN Hk res. unfold res, contrib3d_smallest.
+  destruct (smallest_kv_spec (contribs_spec ref S) (contribs3d ref S) k) as [A [B [C Dd]]].
+  - rewrite contribs_spec_length. apply contribs3d_correct; auto.
+  - now rewrite contribs_spec_length.
+  - split; auto. split; auto. split; auto. intros v i Hin. destruct (Dd v i Hin) as [H1 H2].
+    rewrite contribs_spec_length in H1. split; auto. rewrite H2. unfold contribs_spec.
+    rewrite (nth_indep _ 0 (contrib_spec ref S 0)) by (rewrite map_length, seq_length; auto).
+    rewrite map_nth, seq_nth; auto.
+Qed.
+
+Theorem contrib3d_largest_correct ref S k :
+  length ref = 3%nat -> below_ref ref S -> mutually_nondominated S -> (k <= length S)%nat ->
+  let res := contrib3d_largest ref S k in
+  map fst res = largest_k k (contribs_spec ref S) /\ length res = k /\ NoDup (map snd res) /\
+  forall v i, In (v, i) res -> (i < length S)%nat /\ v = contrib_spec ref S i.
+Proof.
+  intros Hl HB HN Hk res. unfold res, contrib3d_largest.
+  destruct (largest_kv_spec (contribs_spec ref S) (contribs3d ref S) k) as [A [B [C Dd]]].
+  - rewrite contribs_spec_length. apply contribs3d_correct; auto.
+  - now rewrite contribs_spec_length.
+  - split; auto. split; auto. split; auto. intros v i Hin. destruct (Dd v i Hin) as [H1 H2].
+    rewrite contribs_spec_length in H1. split; auto. rewrite H2. unfold contribs_spec.
+    rewrite (nth_indep _ 0 (contrib_spec ref S 0)) by (rewrite map_length, seq_length; auto).
+    rewrite map_nth, seq_nth; auto.
+Qed.
